@@ -62,7 +62,7 @@ abbrev Collector := TypeDef → List Sel → Option (List CF)
 /-- gqlgen: `graphql.CollectFields(ec.OperationContext, sel, <type>Implementors)` -/
 def implCollector (s : Schema) (frags : List Frag) (vars : Vars) (isQuery : Bool := true) : Collector :=
   fun ty sels =>
-    (Impl.collect s frags vars ty.implementors 1000000 sels [] []).map fun r =>
+    (Impl.collect true s frags vars ty.implementors 1000000 sels [] []).map fun r =>
       -- `deferrableIn`: @defer is honoured only in query operations
       if isQuery then r.1 else r.1.map fun cf => { cf with deferred := none }
 
